@@ -44,6 +44,9 @@ type Property struct {
 	NotDecided  string
 	Assumptions []string
 	Run         func(c *Ctx)
+	// VariantSkip names build variants of the thorough tier that cannot be loaded for this
+	// property in the sandbox, with the reason (recorded in the evidence).
+	VariantSkip map[string]string
 }
 
 var properties = map[string]*Property{}
@@ -274,7 +277,12 @@ func runProperty(prop *Property, repo, tier string, onlyConstruct string) (int, 
 			{"tags=withtestkeys", "withtestkeys", ""},
 			{"GOARCH=arm64", "", "arm64"},
 		} {
-			cv, pv, err := evalOnce(prop, repo, tier, prop.Roots, v.tags, v.arch)
+			if why, skip := prop.VariantSkip[v.name]; skip {
+				variants = append(variants, variantInfo{Name: v.name + " (skipped: " + why + ")"})
+				continue
+			}
+			// the variants load the anchor packages only, so the rules see them in quick scope
+			cv, pv, err := evalOnce(prop, repo, "quick", prop.Roots, v.tags, v.arch)
 			if err != nil {
 				return 2, fmt.Errorf("variant %s: %v", v.name, err)
 			}
